@@ -234,7 +234,11 @@ func execNsec(f []string) vlib.Res {
 				res.Tags = "nt,accepted," + why
 				want := map[string]string{"nxd": "nxdomain", "nod": "nodata"}[f[1]]
 				if truth != want {
-					res.Oracle = fmt.Sprintf("FAIL sig=nsec/%s/%s-accepted truth=%s", entry, why, truth)
+					reason := why
+					if why == "wildcard-ent" {
+						reason = "ent" // same missing test (next name below the denied name), on the wildcard
+					}
+					res.Oracle = fmt.Sprintf("FAIL sig=nsec/%s/%s-accepted truth=%s why=%s", entry, reason, truth, why)
 				}
 			} else {
 				res.Tags = "rejected," + why
